@@ -207,8 +207,14 @@ func registryCheck(cr *checkRun, regName, label string, fulls []string, safetyOn
 			if !claimable {
 				continue
 			}
+			if !safetyOnly && cr.foreignFinding(o.Name) {
+				continue
+			}
 			generated++
 			if writing || cr.tier == "thorough" || reg[o.Name] || reg[stableOblKey(o.Name)] || o.Kind == "frame.store" || (!safetyOnly && isClauseKind(o.Kind)) {
+				if !safetyOnly && cr.knownFindingFor(o.Name) != nil {
+					o.Budget = 1
+				}
 				all = append(all, o)
 			}
 		}
@@ -236,6 +242,12 @@ func registryCheck(cr *checkRun, regName, label string, fulls []string, safetyOn
 		seen[o.Name] = true
 		seen[stableOblKey(o.Name)] = true
 		claimed := reg[o.Name] || reg[stableOblKey(o.Name)]
+		if !o.OK() && !safetyOnly {
+			if kf := cr.knownFindingFor(o.Name); kf != nil {
+				cr.knownHit[kf.ID] = o.Name // open known finding: the obligation still fails (not discharged)
+				continue
+			}
+		}
 		if o.OK() {
 			ok++
 			names = append(names, o.Name)
@@ -260,6 +272,8 @@ func registryCheck(cr *checkRun, regName, label string, fulls []string, safetyOn
 			// solver merely fails to decide stays undecided
 			cr.nObl++
 			cr.handleSweepFailure(o)
+		} else if !safetyOnly && writing && isClauseKind(o.Kind) {
+			fmt.Fprintf(os.Stderr, "registry: contract clause NOT discharged while writing (stays unclaimed): %s (%s)\n", o.Name, o.Res.Status)
 		} else if !safetyOnly && !writing && isClauseKind(o.Kind) {
 			cr.undecided = append(cr.undecided, o.Name+" ("+o.Res.Status+"; contract clause not in the claimed registry)")
 		}
